@@ -165,6 +165,7 @@ Not decided: that the (min, max) handed to the selector is the true hull of the 
     lub(m, ctx);
     literal(m, ctx);
     named_first(m, ctx, "C06.named");
+    crate::rules::c07::named_lookup(m, ctx, "C06.named");
     agree(m, ctx, "C06.agree");
 }
 
